@@ -308,3 +308,41 @@ def run_check(prop, tier, seed):
             print(f"INCONCLUSIVE property={prop} reason={r}")
         return 2
     return 0
+
+
+# ---------------------------------------------------------------------------------
+# replay support
+# ---------------------------------------------------------------------------------
+
+
+class ReplayCtx:
+    """ctx stand-in used by `python -m vf replay <file>`: collects what the check would report"""
+
+    def __init__(self, tier="quick", seed=0):
+        self.v = []
+        self.counters = collections.Counter()
+        self.tier, self.seed, self.shard, self.nshards = tier, seed, 0, 1
+        self.extra = {}
+
+    def count(self, k, n=1):
+        self.counters[k] += n
+
+    def nt(self, k):
+        pass
+
+    def sample(self, *a, **k):
+        pass
+
+    def expired(self):
+        return False
+
+    def violation(self, sig, detail, case=None):
+        self.v.append((sig, detail))
+
+    def report(self, want_sig=None):
+        for sig, detail in self.v:
+            print(f"reproduced: {sig}")
+            print("  " + json.dumps(detail, default=repr)[:1200])
+        if not self.v:
+            print("not reproduced: the check reports nothing for this case on the current tree")
+        return 1 if self.v else 0
